@@ -303,7 +303,7 @@ def bounded(tier, seed):
     res = native("stochastic.py", {"seed": seed, "n": n}, timeout=3000)
     if not res.get("ok"):
         raise RuntimeError(f"native driver failed: {res}")
-    return [{"name": "seeded_runs_vs_documented_increment", "bound": f"{n} random instances per (solver, interpretation) on grids with non-uniform cell volumes, numpy backend, field-dependent variance",
+    return [{"name": "seeded_runs_vs_documented_increment", "bound": f"{n} random instances per (solver, interpretation) on grids with non-uniform cell volumes, numpy backend, field-dependent variance; PDE class with per-field variances for rhs given as dict / pairs and variances as dict / list / partial dict",
              "cases": res["cases"], "failures": res["failures"]}]
 
 
